@@ -12,6 +12,7 @@ import Driver.OpsCardWire
 import Driver.OpsCalWire
 import Driver.OpsFront
 import Driver.OpsClient
+import Driver.OpsObjWire
 namespace Driver
 
 def dispatch (op : String) (args : List SExp) : Option OpResult :=
@@ -58,6 +59,13 @@ def dispatch (op : String) (args : List SExp) : Option OpResult :=
   | "card.dec" => opCardDec args
   | "card.encmg" => opCardEncMg args
   | "card.decmg" => opCardDecMg args
+  | "obj.cals" => opObjCals args
+  | "obj.books" => opObjBooks args
+  | "obj.calobjs" => opObjObjs "calendar-object" "calendar-data" true args
+  | "obj.cards" => opObjObjs "address-object" "address-data" false args
+  | "obj.put" => opObjPut args
+  | "obj.sync" => opObjSync args
+  | "obj.mget" => opObjMget args
   | "cli.do" => opCliDo args
   | "cli.ms" => opCliMs args
   | "cli.resp" => opCliResp args
